@@ -1475,13 +1475,15 @@ fn format_hanging_expression_(
 
             let singleline_shape = current_shape + strip_trivia(binop).to_string().len() + 1; // 1 = space after binop
 
+            // The RHS is an operand as well: a type assertion inside it must keep its parentheses,
+            // as on the single line path (`(x :: T) < y` would otherwise become `x :: T < y`)
             let mut new_rhs = hang_binop_expression(
                 ctx,
                 *rhs.to_owned(),
                 binop.to_owned(),
                 singleline_shape,
                 None,
-                ExpressionContext::Standard,
+                ExpressionContext::UnaryOrBinary,
             );
 
             // Examine the last line to see if we need to hang this binop, or if the precedence levels match
@@ -1500,7 +1502,7 @@ fn format_hanging_expression_(
                     binop.to_owned(),
                     hanging_shape,
                     None,
-                    ExpressionContext::Standard,
+                    ExpressionContext::UnaryOrBinary,
                 )
                 .update_leading_trivia(FormatTriviaType::Replace(Vec::new()));
             }
